@@ -118,7 +118,10 @@ macro "py_norm" : tactic => `(tactic|
      bne_iff_ne, ne_eq, Decidable.not_not, beq_iff_eq, Bool.and_eq_true, Bool.or_eq_true, decide_eq_true_eq,
      Bool.false_eq_true, Bool.true_eq_false, not_false_eq_true, not_true_eq_false, Bool.not_eq_true', Bool.not_eq_false', decide_eq_false_iff_not, Bool.or_eq_false_iff,
      Bool.and_eq_false_imp, Classical.not_and_iff_not_or_not, not_or, Classical.not_not, true_and, and_true, List.isEmpty_iff, ne_eq,
-     List.contains_cons, List.contains_nil, Bool.or_false, Bool.false_or] at *))
+     Py.contains_int_two, Py.contains_int_three, Py.contains_int_four, Py.contains_int_two_false,
+     Py.contains_int_three_false, Py.contains_int_four_false,
+     Py.all_map_strIn_chars, Py.any_map_not_strIn_chars, Py.all_strIn_chars, Py.any_not_strIn_chars,
+     Bool.or_false, Bool.false_or] at *))
 
 /-- unfold the `let`-bound locals `mvcgen` introduces for reassigned variables -/
 macro "py_zeta" : tactic => `(tactic| (try simp (config := {zetaDelta := true, decide := false}) only [] at *))
@@ -127,10 +130,31 @@ macro "py_zeta" : tactic => `(tactic| (try simp (config := {zetaDelta := true, d
 rewrite `cleanP s d`, `upper s`, `strip s` to `s` -/
 macro "py_recompact" : tactic => `(tactic|
   (try simp (disch := first | assumption | decide) only
-    [Py.cleanP_of_isDigitsB, Py.upper_of_isDigitsB, Py.lower_of_isDigitsB, Py.strip_of_isDigitsB, Py.cleanP_idem, Py.strip_strip] at *))
+    [Py.cleanP_of_isDigitsB, Py.upper_of_isDigitsB, Py.lower_of_isDigitsB, Py.strip_of_isDigitsB, Py.cleanP_idem, Py.strip_strip,
+     Py.cleanP_of_alphabet, Py.strip_of_alphabet, Py.upper_of_alphabet] at *))
+
+/-- forward facts from the gates: `isDigitsB t = true` gives `0 < |t|` and `AllIn isAsciiDigit t` -/
+elab "py_facts" : tactic => withMainContext do
+  let mut g ← getMainGoal
+  for ldecl in ← getLCtx do
+    if ldecl.isImplementationDetail then continue
+    let t ← instantiateMVars ldecl.type
+    let some (_, lhs, rhs) := t.eq? | continue
+    unless lhs.isAppOfArity ``Py.isDigitsB 1 && rhs.isConstOf ``Bool.true do continue
+    let h := mkFVar ldecl.fvarId
+    let p1 ← mkAppM ``Py.ne_nil_of_B #[h]
+    let p2 ← mkAppM ``Py.allIn_of_B #[h]
+    g ← g.withContext do
+      let g ← g.assert `hpos__ (← inferType p1) p1
+      let (_, g) ← g.intro1
+      let g ← g.assert `hall__ (← inferType p2) p2
+      let (_, g) ← g.intro1
+      pure g
+  replaceMainGoal [g]
 
 macro "py_prep" : tactic => `(tactic|
-  (intros; py_zeta; py_cases_and; (try subst_vars); py_norm; py_cases_and; (try subst_vars); py_recompact))
+  (intros; py_zeta; all_goals py_cases_and; all_goals (try subst_vars); all_goals py_norm; all_goals py_cases_and;
+   all_goals (try subst_vars); all_goals py_recompact; all_goals py_facts))
 
 /-! ## step 3: strings of known length -/
 
@@ -221,6 +245,7 @@ elab "py_split_len" : tactic => liftMetaTactic fun g => do
 /-- evaluate the sequence operations on explicit lists -/
 macro "py_eval" : tactic => `(tactic|
   (try simp (config := {decide := false}) only [slice, sliceL, loIdx, hiIdx, normIdx, getItem, getItemL, sliceStepL, everyNth, everyNthGo,
+    pyIdx, Option.some.injEq,
     chars_cons, chars_nil, enumerate_cons, enumerate_nil, List.zip_cons_cons, List.zip_nil_left, List.zip_nil_right,
     List.reverse_cons, List.reverse_nil, List.nil_append, List.cons_append, List.length_cons, List.length_nil,
     List.take_succ_cons, List.take_zero, List.drop_succ_cons, List.drop_zero, List.take_nil, List.drop_nil,
@@ -233,6 +258,96 @@ macro "py_eval" : tactic => `(tactic|
     Nat.zero_add, Nat.add_zero, Int.zero_add, Int.add_zero, ge_iff_le, gt_iff_lt, reduceIte,
     Int.natCast_zero, Int.natCast_one, Nat.le_refl, Int.le_refl,
     tupleToList_pair, sumInt_cons, sumInt_nil] at *))
+
+namespace Py.VcImpl
+/-- case-split `x ∈ [a, b, c]` for a loop/comprehension variable `x` (not a character) that the goal talks about -/
+partial def splitMemLoop (g : MVarId) : MetaM (List MVarId) := g.withContext do
+  let tgt ← instantiateMVars (← g.getType)
+  let ok (x l : Expr) : MetaM Bool := do
+    unless isExplicitList l do return false
+    unless x.isFVar do return false
+    if (← inferType x).isConstOf ``Nat then return false
+    return tgt.containsFVar x.fvarId!
+  for ldecl in ← getLCtx do
+    if ldecl.isImplementationDetail then continue
+    let t ← instantiateMVars ldecl.type
+    let hit ←
+      if t.isAppOfArity ``Membership.mem 5 then ok (t.getArg! 4) (t.getArg! 3)
+      else if t.isAppOfArity ``List.Mem 3 then ok (t.getArg! 1) (t.getArg! 2)
+      else pure false
+    if hit then
+      let subgoals ← g.cases ldecl.fvarId
+      return (← subgoals.toList.mapM (fun s => splitMemLoop s.mvarId)).flatten
+  return [g]
+end Py.VcImpl
+
+open Py.VcImpl in
+elab "py_split_mem" : tactic => liftMetaTactic fun g => splitMemLoop g
+
+namespace Py.VcImpl
+/-- length of the longest explicit list literal inside `e` -/
+partial def maxListLit (e : Expr) : Nat :=
+  let rec len (e : Expr) (n : Nat) : Nat :=
+    if e.isAppOfArity ``List.cons 3 then len e.appArg! (n + 1) else n
+  let rec go (e : Expr) : Nat :=
+    match e with
+    | .app f a =>
+      if e.isAppOfArity ``List.cons 3 then max (len e 0) (go (e.getArg! 1)) else max (go f) (go a)
+    | .lam _ t b _ => max (go t) (go b)
+    | .forallE _ t b _ => max (go t) (go b)
+    | .letE _ t v b _ => max (go t) (max (go v) (go b))
+    | .mdata _ e => go e
+    | .proj _ _ e => go e
+    | _ => 0
+  go e
+end Py.VcImpl
+
+open Py.VcImpl in
+/-- drop the hypotheses that mention a long literal (an alphabet, a table): arithmetic closers do not need them and
+`simp_all` would unfold them -/
+elab "py_clear_big" : tactic => withMainContext do
+  let mut g ← getMainGoal
+  for ldecl in (← getLCtx).decls.toArray.reverse do
+    let some ldecl := ldecl | continue
+    if ldecl.isImplementationDetail then continue
+    let t ← instantiateMVars ldecl.type
+    if maxListLit t ≥ 12 then
+      try g ← g.clear ldecl.fvarId catch _ => pure ()
+  replaceMainGoal [g]
+
+/-- per-character facts from gates on explicit strings -/
+macro "py_chars" : tactic => `(tactic|
+  ((try simp (config := {decide := false}) only [isDigitsB, IsDigits, List.all_cons, List.all_nil, List.any_cons, List.any_nil,
+      List.isEmpty_cons, List.isEmpty_nil, AllIn.cons_iff', AllIn.nil_iff, AllIn.singleton_iff, AllIn.append_iff,
+      Bool.and_eq_true, Bool.not_false, Bool.not_true,
+      Bool.and_true, Bool.true_and, Bool.or_false, Bool.false_or, ne_eq, List.cons_ne_nil, not_false_eq_true, true_and, and_true,
+      strIn_single, List.map_cons, List.map_nil, id, Bool.not_eq_true', Bool.not_eq_false', Bool.or_eq_true,
+      Bool.or_eq_false_iff, Bool.and_eq_false_imp, reduceCtorEq, and_self, List.cons.injEq, and_false, false_and,
+      not_true_eq_false, List.length_cons, List.length_nil, Nat.reduceAdd, Nat.reduceLeDiff, Nat.reduceLT,
+      Bool.false_eq_true, Bool.true_eq_false, Classical.not_not] at *);
+   all_goals py_cases_and))
+
+namespace Py
+theorem contains_of_isAsciiDigit {A : Str} (hA : (List.range' 48 10).all (fun c => A.contains c) = true) {c : Nat}
+    (hc : isAsciiDigit c = true) : A.contains c = true := of_isAsciiDigit (Q := fun c => A.contains c) hA hc
+theorem contains_of_isAsciiUpper {A : Str} (hA : (List.range' 65 26).all (fun c => A.contains c) = true) {c : Nat}
+    (hc : isAsciiUpper c = true) : A.contains c = true := of_isAsciiUpper (Q := fun c => A.contains c) hA hc
+theorem contains_of_contains {A B : Str} (hA : A.all (fun c => B.contains c) = true) {c : Nat}
+    (hc : A.contains c = true) : B.contains c = true := of_contains (Q := fun c => B.contains c) hA hc
+theorem isAsciiDigit_of_contains {A : Str} (hA : A.all isAsciiDigit = true) {c : Nat}
+    (hc : A.contains c = true) : isAsciiDigit c = true := of_contains hA hc
+theorem isAsciiAlnum_of_contains {A : Str} (hA : A.all isAsciiAlnum = true) {c : Nat}
+    (hc : A.contains c = true) : isAsciiAlnum c = true := of_contains hA hc
+end Py
+
+/-- goal `Q c = true` for a character class `Q`, from a class fact about the same character -/
+macro "py_char" : tactic => `(tactic| first
+  | assumption
+  | exact Py.contains_of_isAsciiDigit (by decide) ‹_›
+  | exact Py.contains_of_isAsciiUpper (by decide) ‹_›
+  | exact Py.isAsciiDigit_of_contains (by decide) ‹_›
+  | exact Py.isAsciiAlnum_of_contains (by decide) ‹_›
+  | exact Py.contains_of_contains (by decide) ‹_›)
 
 /-! ## closers -/
 
@@ -270,25 +385,33 @@ macro "py_close_generic" : tactic => `(tactic| (py_digits; py_cursor; first
   | (simp_all (config := {decide := false}) [isDigitsB_iff, IsDigits, slice_length]; done)))
 
 /-- closers after `py_explode; py_eval`: everything is about explicit characters -/
-macro "py_close_concrete" : tactic => `(tactic| (first
+macro "py_close_concrete1" : tactic => `(tactic| (first
   | done
   | assumption
   | omega
-  | (simp_all (config := {decide := false}) [isDigitsB, IsDigits, Py.digitsVal_two, Py.digitsVal_three, Py.digitsVal_four]; done)
-  | (simp_all (config := {decide := false}) [isDigitsB, IsDigits, Py.digitsVal_two, Py.digitsVal_three, Py.digitsVal_four]; omega)))
+  | py_char
+  | decide
+  | (py_clear_big; simp_all (config := {decide := false}) [isDigitsB, IsDigits, Py.digitsVal_two, Py.digitsVal_three, Py.digitsVal_four]; done)
+  | (py_clear_big; simp_all (config := {decide := false}) [isDigitsB, IsDigits, Py.digitsVal_two, Py.digitsVal_three, Py.digitsVal_four]; omega)))
+
+macro "py_close_concrete" : tactic => `(tactic|
+  (py_split_mem <;> (py_chars; all_goals first
+    | done
+    | py_close_concrete1
+    | ((repeat' apply And.intro) <;> py_close_concrete1))))
 
 /-- exception bookkeeping: `e = .valueError`, `¬ e.caughtBy .valueError` … -/
 macro "py_exc" : tactic => `(tactic|
   (simp (config := {decide := true}) only [Exc.caughtBy, Exc.isValidation, Classical.not_not, not_true_eq_false,
      false_and, and_false] at *; done))
 
-macro "py_vc3" : tactic => `(tactic| (py_prep; first
+macro "py_vc3" : tactic => `(tactic| (py_prep; all_goals first
   | done
-  | trivial
+  | exact True.intro
   | assumption
   | omega
   | py_exc
-  | (py_split_len <;> (py_explode; py_eval; py_close_concrete))
+  | (py_split_len <;> (py_explode; py_eval; all_goals (try subst_vars); all_goals py_close_concrete))
   | py_close_generic))
 
 /-- the closing tactic used by the generated contract proofs -/
